@@ -71,6 +71,9 @@ type foEvent struct {
 	Deadl   bool   `json:"deadline,omitempty"`
 	Done    bool   `json:"done,omitempty"`
 	BG      bool   `json:"bg,omitempty"`
+	T       int64  `json:"t,omitempty"` // monotonic ns since run start
+	W       int64  `json:"-"`           // wall clock UnixNano
+	W0      int64  `json:"-"`           // wall clock before the operation (writes)
 }
 
 type ttlUpd struct {
@@ -131,6 +134,7 @@ type foRun struct {
 	script    func(key, invocation int) buildOutcome
 	holdMax   time.Duration // free mode: builder holds its slot this long (random up to)
 	prepop    map[int]string
+	t0        time.Time
 	gateBG    chan struct{} // optional: background builders wait here (non-steered scenario tests)
 	bgEntered chan int
 }
@@ -169,6 +173,9 @@ func (r *foRun) record(e foEvent) int64 {
 	r.mu.Lock()
 	r.seq++
 	e.Seq = r.seq
+	now := time.Now()
+	e.T = int64(now.Sub(r.t0))
+	e.W = now.UnixNano()
 	r.log = append(r.log, e)
 	s := r.seq
 	r.mu.Unlock()
@@ -254,7 +261,7 @@ func (r *foRun) beWrite(ctx context.Context, key []byte, v interface{}) error {
 	n := atomic.AddInt64(&r.beCalls, 1)
 	ki := r.keyIndex(key)
 	r.sched.yield(ctx, "be.write.pre")
-	ev := foEvent{Kind: "be.write", Get: ctxGetID(ctx), Key: ki, N: n, TTL: int64(cache.TTL(ctx))}
+	ev := foEvent{Kind: "be.write", Get: ctxGetID(ctx), Key: ki, N: n, TTL: int64(cache.TTL(ctx)), W0: time.Now().UnixNano()}
 	if ki < 0 {
 		ev.Info = "unknown key " + keyLabel(key)
 	}
@@ -346,6 +353,10 @@ func (s foStats) Add(ctx context.Context, name string, inc float64, labels ...st
 	if lbl == s.r.name {
 		switch name {
 		case cache.MetricRefreshed, cache.MetricBuild, cache.MetricFailed, cache.MetricChanged:
+			s.r.record(foEvent{Kind: "stat", Get: ctxGetID(ctx), Key: -1, Info: name})
+		}
+		switch name {
+		case cache.MetricRefreshed, cache.MetricBuild, cache.MetricFailed, cache.MetricChanged:
 			s.r.sched.yield(ctx, "stat:"+name)
 		}
 	}
@@ -434,7 +445,7 @@ func (a foOf) ErrorsWalk(fn func(key []byte, err error, exp time.Time)) {
 
 func newFoRun(cfg foConfig, keys [][]byte, sc *sched) *foRun {
 	r := &foRun{cfg: cfg, keys: keys, kidx: map[string]int{}, sched: sc, name: "fo",
-		active: map[int]int{}, buildCount: map[int]int{}, ledger: map[string]float64{}, faultAt: -1, prepop: map[int]string{}}
+		t0: time.Now(), active: map[int]int{}, buildCount: map[int]int{}, ledger: map[string]float64{}, faultAt: -1, prepop: map[int]string{}}
 	for i, k := range keys {
 		r.kidx[string(k)] = i
 	}
@@ -532,15 +543,17 @@ func (r *foRun) makeBuilder(getID, key int, callerGID int64) func(ctx context.Co
 		}
 		r.sched.yield(ctx, "build.enter")
 		out := r.script(key, inv)
+		applied := ""
 		for _, u := range out.TTLs {
 			cache.WithTTL(ctx, u.TTL, u.Update)
+			applied += fmt.Sprintf("%d:%v,", int64(u.TTL), u.Update)
 		}
 		if r.holdMax > 0 {
 			time.Sleep(time.Duration(mix64(uint64(n)*77+uint64(r.faultAt+3)) % uint64(r.holdMax+1)))
 		}
 		r.sched.yield(ctx, "build.exit")
 		// observe the context again at exit (a background build must still not be cancelled)
-		ex := foEvent{Kind: "build.exit", Get: getID, Key: key, N: n, TTL: int64(cache.TTL(ctx)), CtxErr: ctxErrStr(ctx)}
+		ex := foEvent{Kind: "build.exit", Get: getID, Key: key, N: n, TTL: int64(cache.TTL(ctx)), CtxErr: ctxErrStr(ctx), Info: applied, BG: ev.BG}
 		var tok string
 		var err error
 		if out.OK {
